@@ -55,7 +55,7 @@ def re : Datatype → RE
                 seq (cls [('c', 'c'), ('i', 'i'), ('s', 's')]) (plus (seqs [chr ',', opt sign, plus digit]))]
   | .alnGfa1 => alt star1 cigar1
   | .alnListGfa1 => seq (alt star1 cigar1) (star (seq (chr ',') (alt star1 cigar1)))
-  | .oidListGfa1 => seqs [nameStart, star printable, sign, star (seqs [chr ',', nameStart, star printable, sign])]
+  | .oidListGfa1 => seqs [nameStart, star printable, sign]   -- the list is split at the commas by the side condition
   | .posGfa1 => uint
   | .segNameGfa1 => segName1
   | .seqGfa1 => alt star1 (plus (cls [('.', '.'), ('=', '='), ('A', 'Z'), ('a', 'z')]))
